@@ -612,6 +612,18 @@ func runC12(c *fw.Ctx) {
 		for _, ep := range entryPoints {
 			c12Store(c, ep, uns[i])
 		}
+		// as the argument of the two converting constructors themselves
+		guard(c, func() string { return fmt.Sprintf("NewListFrom / NewObjectFrom given an unsupported %T", uns[i]) }, func() {
+			c.Count("unsupported_constructor_arguments")
+			var gl at.List
+			var gobj at.Object
+			if p, _ := drive.Protect(func() { gl = at.NewListFrom(uns[i]) }); !p {
+				c.Violate("unsupported-value-stored", fmt.Sprintf("NewListFrom(%T)", uns[i]), "panic (value of an unsupported Go type)", "returned "+stringCanon(gl))
+			}
+			if p, _ := drive.Protect(func() { gobj = at.NewObjectFrom(uns[i]) }); !p {
+				c.Violate("unsupported-value-stored", fmt.Sprintf("NewObjectFrom(%T)", uns[i]), "panic (value of an unsupported Go type)", "returned "+stringCanon(gobj))
+			}
+		})
 		// not stored: pre-existing containers stay as they were
 		guard(c, func() string { return fmt.Sprintf("unsupported %T into existing containers", uns[i]) }, func() {
 			l := at.NewList(1, 2)
